@@ -386,6 +386,12 @@ def install(I):
         if isinstance(v, Sym):
             return Sym(B.zreal(v)) if v.kind != "real" else v
         if isinstance(v, str):
+            if v.strip().lower() in ("inf", "+inf", "infinity", "+infinity"):
+                # +infinity as a list element / comparison operand: an unspecified real constant; what is known about it is what the
+                # contracts assume (it lies above every finite quantity they compare it with). Arithmetic on it is not modelled.
+                ctx.assumed_ext.add("float('inf') is an unspecified real constant PLUS_INF; only comparisons with it are meaningful (it lies above "
+                                    "every finite threshold, as the contracts assume); arithmetic on it is not modelled")
+                return Sym(smt.PLUS_INF)
             try:
                 return float(v)
             except ValueError:
